@@ -18,10 +18,10 @@ import (
 	"os"
 	"path/filepath"
 	"regexp"
+	"runtime"
 	"runtime/debug"
 	"sort"
 	"strconv"
-	"runtime"
 	"strings"
 	"sync"
 	"syscall"
